@@ -999,10 +999,16 @@ class TexNamedEnv(TexEnv):
         """
         super().__init__(name, r"\begin{%s}" % name, r"\end{%s}" % name,
                          contents, args, preserve_whitespace, position=position)
+        # the name as written, e.g. with surrounding whitespace (``self.name``
+        # is stripped); printed as long as it still spells the current name
+        self._written_name = name
 
     @property
     def begin(self):
-        return r"\begin{%s}" % self.name
+        written = getattr(self, '_written_name', self.name)
+        if written.strip() != self.name:  # renamed since
+            written = self.name
+        return r"\begin{%s}" % written
 
     @property
     def end(self):
